@@ -261,6 +261,7 @@ class Sites:
         self.verify_ok = False
         self.check_failed = False
         self.touched = False
+        self.in_check = False
         self.logfile = None
 
     def hit(self, code):
@@ -350,7 +351,9 @@ class patched:
                         f.seek(off)
                         f.write(bytes(x ^ 0x55 for x in b))
                     S.touched = True
-            S.pre()
+            S.pre()                        # interruption before the method is entered
+            S.done(650000)                 # check_NP24 entered (it clears check_completed first)
+            S.in_check = True
             try:
                 res = o_check(self)        # a failed comparison raises: the step is not counted
             except Injected:
@@ -358,9 +361,20 @@ class patched:
             except Exception as e:         # AssertionError, or shape/IO errors on truncated / missing files
                 S.check_failed = True
                 raise VerifyFailed(repr(e))
+            finally:
+                S.in_check = False
             S.done(600000)
             S.verify_ok = True
             return res
+
+        o_wg = neuropixel.WindowGenerator
+        self.o_wg = o_wg
+
+        def wgen(*a, **k):
+            if S.in_check:                 # inside the real check_NP24, after its own first statements
+                S.in_check = False
+                S.pre()
+            return o_wg(*a, **k)
 
         def unlink(self, missing_ok=False):
             c = pcode(root, self)
@@ -422,6 +436,7 @@ class patched:
         NP2Converter._split2shanks, NP2Converter.check_NP24, NP2Converter.delete_NP24 = split, check, delete
         spikeglx.write_meta_data, mtscomp.compress = wmeta, compress
         neuropixel.open = fopen
+        neuropixel.WindowGenerator = wgen
         return self
 
     def __exit__(self, *a):
@@ -432,6 +447,7 @@ class patched:
         (pathlib.Path.mkdir, pathlib.Path.unlink, pathlib.Path.rename, NP2Converter._split2shanks,
          NP2Converter.check_NP24, NP2Converter.delete_NP24, spikeglx.write_meta_data, mtscomp.compress) = self.saved
         del neuropixel.open
+        neuropixel.WindowGenerator = self.o_wg
         return False
 
 
@@ -561,7 +577,7 @@ def run_object(root, cfg, exp, opts, calls):
             def fn():
                 conv.post_check, conv.delete_original, conv.compress = bool(c["post"]), bool(c["del"]), bool(c["comp"])
         died = False
-        if ct == 0 and obs["closed_before"]:
+        if ct == 0 and obs["closed_before"]:      # never read through a closed reader in this process
             log = root.parent / (root.name + ".sitelog")
             log.write_text("")
             S.logfile = log
